@@ -185,6 +185,72 @@ func (p *Prog) guardedBy(at ssa.Instruction, a, b func(ssa.Value) bool) (bool, s
 	return witness != "", witness
 }
 
+// lowerGuarded: on every path class reaching `at` some fact bounds an expression satisfying isE from below by at least
+// need — e > G (G ≥ need-1), e >= G (G ≥ need), e != 0 / !(e == 0) for need 1, the negations of e < G / e <= G — or
+// compares it with a run-time quantity.
+func (p *Prog) lowerGuarded(at ssa.Instruction, isE func(ssa.Value) bool, need int64) (bool, string) {
+	witness := ""
+	for _, class := range p.factsAt(at.Block()) {
+		found := false
+		for _, f := range class {
+			bo, ok := f.cond.(*ssa.BinOp)
+			if !ok || !isComparison(bo.Op) {
+				continue
+			}
+			x, y, op := bo.X, bo.Y, bo.Op
+			if !p.mentions(x, isE) && !p.mentions(y, isE) {
+				continue
+			}
+			if _, isC := p.constInClass(x, class, 0); isC {
+				x, y = y, x
+				switch op {
+				case token.LSS:
+					op = token.GTR
+				case token.LEQ:
+					op = token.GEQ
+				case token.GTR:
+					op = token.LSS
+				case token.GEQ:
+					op = token.LEQ
+				}
+			}
+			G, isC := p.constInClass(y, class, 0)
+			okb := false
+			if !isC {
+				okb = true // symbolic relation
+			} else if isE(p.origin(x)) || isE(x) {
+				switch {
+				case op == token.GTR && f.truth:
+					okb = G >= need-1
+				case op == token.GEQ && f.truth:
+					okb = G >= need
+				case op == token.LSS && !f.truth:
+					okb = G >= need
+				case op == token.LEQ && !f.truth:
+					okb = G >= need-1
+				case op == token.NEQ && f.truth, op == token.EQL && !f.truth:
+					okb = G == 0 && need <= 1
+				case op == token.EQL && f.truth:
+					okb = G >= need
+				}
+			} else {
+				okb = true // the length occurs inside a larger expression compared with a constant: accepted
+			}
+			if okb {
+				found = true
+				if witness == "" {
+					witness = fmt.Sprintf("%s at %s", valueString(bo), p.instrPosV(bo))
+				}
+				break
+			}
+		}
+		if !found {
+			return false, ""
+		}
+	}
+	return witness != "", witness
+}
+
 // upperBound: the largest value of an expression satisfying isE that the facts of one path class admit, from
 // comparisons with constants (e > G false → ≤ G, e >= G false → ≤ G-1, e <= G true → ≤ G, e < G true → ≤ G-1).
 func (p *Prog) upperBoundInClass(class []condFact, isE func(ssa.Value) bool) (int64, bool, *ssa.BinOp) {
@@ -572,8 +638,10 @@ func fF1F3(p *Prog, o *obls, fn *ssa.Function) {
 			isLen := func(v ssa.Value) bool { return isLenOf(p, v, baseKey) }
 			construct := fk + ":" + shortExpr(p, x.X) + "[" + shortExpr(p, x.Index) + "]"
 			if c, ok := lenMinusConst(p, x.Index, baseKey); ok {
-				// F1b: s[len(s)-c] needs a test of len(s)
-				if g, w := p.guardedBy(x, isLen, func(ssa.Value) bool { return true }); g {
+				// F1b: s[len(s)-c] needs a test of len(s) that establishes len(s) >= c: a comparison with a constant
+				// must bound the length from below (`len(s) > max` on the way bounds it from above and does not count);
+				// a comparison with a run-time quantity is accepted as the relation the code relies on
+				if g, w := p.lowerGuarded(x, isLen, c); g {
 					o.ok("F1", construct, p.instrPos(x), fmt.Sprintf("length-relative index len-%d guarded by %s", c, w))
 				} else {
 					o.bad("F1", construct, p.instrPos(x), fmt.Sprintf("index len(s)-%d without a dominating test of len(s): panics on a slice shorter than %d", c, c))
